@@ -27,7 +27,7 @@ def parse_case(c):
 
 def gen_cases(tier, rng):
     cases = []
-    n = 260 if tier == "quick" else 15000
+    n = 260 if tier == "quick" else 8000
     maxN = 150 if tier == "quick" else 1500
     for _ in range(n):
         d = rng.choice([1, 2, 3, 3, 4])
